@@ -8,6 +8,7 @@ import (
 	"fmt"
 	"os"
 	"sort"
+	"time"
 )
 
 type runner func(ctx *Ctx)
@@ -67,6 +68,12 @@ func main() {
 	ctx := &Ctx{Seed: *seed, Tier: *tier, N: *n, Out: bw, Rng: NewRng(*seed), Stats: map[string]int{}, Args: flag.Args()[1:]}
 	r(ctx)
 	bw.Flush()
+	for _, a := range ctx.Args {
+		if a == "replay" {
+			// give goroutines started by the replayed calls time to run: a panic there kills the process
+			time.Sleep(2 * time.Second)
+		}
+	}
 	if *stats != "" {
 		f, err := os.Create(*stats)
 		if err != nil {
